@@ -41,25 +41,25 @@ Definition dimkey_ok (r : reg) (name : string) (idx : nat) : bool :=
   | Err _ => false
   end.
 
-Definition back (r : reg) (f : fmtid) (short : bool) (its : items) : res uc :=
+Definition back (qk : quirks) (r : reg) (f : fmtid) (short : bool) (its : items) : res uc :=
   match parse_params (fp_of f) with
   | None => Err EOther
   | Some pp =>
-      l ←r layout r (pp_as_ratio pp) (pp_single pp) short SortUnitName its;
-      parse_units_tokens r (layout_tokens l ++ [TEnd])
+      l ←r layout qk r (pp_as_ratio pp) (pp_single pp) short SortUnitName its;
+      parse_units_tokens r (layout_tokens qk l ++ [TEnd])
   end.
 
-Definition c09_ok (r : reg) (c : c09case) : bool :=
+Definition c09_ok (qk : quirks) (r : reg) (c : c09case) : bool :=
   match c with
-  | KUnit cf spec its e => fres_eqb (fres_of (full_format_unit r cf spec its)) e
-  | KQty cf spec ms its e => fres_eqb (fres_of (full_format_quantity r cf spec ms its)) e
+  | KUnit cf spec its e => fres_eqb (fres_of (full_format_unit qk r cf spec its)) e
+  | KQty cf spec ms its e => fres_eqb (fres_of (full_format_quantity qk r cf spec ms its)) e
   | KSplit spec d sep m u =>
       let '(m', u') := split_format spec d sep in String.eqb m m' && String.eqb u u'
   | KFlags spec rm ex => String.eqb (remove_custom_flags spec) rm && String.eqb (extract_custom_flags spec) ex
-  | KExpN x e => opt_eqb String.eqb (fmt_n x) e
-  | KSi its e => String.eqb (siunitx_format_unit r its) e
+  | KExpN x e => opt_eqb String.eqb (fmt_n qk x) e
+  | KSi its e => String.eqb (siunitx_format_unit qk r its) e
   | KBack f short its e =>
-      match back r f short its, e with
+      match back qk r f short its, e with
       | Ok u, Some u' => uc_eqb u u'
       | Err _, None => true
       | _, _ => false
